@@ -508,6 +508,20 @@ def call_builtin(ex, name, e, st, awaited):
             elif v.kind == 'list':
                 st2.assume(st2.llen(v.t) >= 0)
                 res.append((st2, vint(st2.llen(v.t))))
+            elif v.kind == 'ref':
+                # len(x) on an object: only PureScheduler defines __len__ in the package (checked in the source:
+                # `return len(self.jobs)`); the receiver must be known to be a scheduler
+                tab = ex.repo.class_table()
+                src = ex.repo.find('purescheduler.py', 'PureScheduler.__len__')
+                ok = src is not None and 'len(self.jobs)' in ast.unparse(src.node) and \
+                    all('__len__' not in tab.get(k, ([], set()))[1] for k in ('Scheduler', 'AbstractJob', 'Job'))
+                if not ok:
+                    raise Unsupported('len of an object whose __len__ is not `len(self.jobs)` of PureScheduler')
+                ex.oblige(st2, 'len-of-a-scheduler', L.isa['PureScheduler'](v.t), 'call-pre',
+                          lineno=getattr(e, 'lineno', None))
+                A = st2.elems(st2.f('jobs', v.t))
+                st2.assume(L.card_facts(A))
+                res.append((st2, vint(L.card(A))))
             else:
                 raise Unsupported('len of %s' % v.kind)
         return res
